@@ -585,6 +585,15 @@ pub fn apply_input_plugins(
     query: &serde_json::Value,
     plugins: &Vec<Arc<dyn InputPlugin>>,
 ) -> Result<Vec<serde_json::Value>, serde_json::Value> {
+    if !query.is_object() {
+        // plugins index into the query and arrays are flattened as plugin output, so anything
+        // but an object is answered directly, echoing what was sent
+        let mut request = query.clone();
+        return Err(in_ops::package_error(
+            &mut request,
+            "expected the query to be a JSON object",
+        ));
+    }
     let mut plugin_state = serde_json::Value::Array(vec![query.clone()]);
     for plugin in plugins {
         let p = plugin.clone();
